@@ -58,6 +58,10 @@ pub struct Outlines<'a> {
     prefer_interpreter: bool,
 }
 
+/// Minimum number of function definition entries allocated for a font
+/// with a version 1.0 `maxp` table (matches FreeType).
+const MIN_FUNCTION_DEFS: u16 = 64;
+
 impl<'a> Outlines<'a> {
     pub fn new(font: &FontRef<'a>) -> Option<Self> {
         let loca = font.loca(None).ok()?;
@@ -76,7 +80,14 @@ impl<'a> Outlines<'a> {
             .map(|maxp| {
                 (
                     maxp.num_glyphs(),
-                    maxp.max_function_defs().unwrap_or_default(),
+                    // FreeType allocates at least 64 function definition
+                    // entries for fonts with a version 1.0 maxp table, because
+                    // some fonts announce fewer functions than their font
+                    // program defines.
+                    // See <https://gitlab.freedesktop.org/freetype/freetype/-/blob/57617782464411201ce7bbc93b086c1b4d7d84a5/src/sfnt/ttload.c#L784>
+                    maxp.max_function_defs()
+                        .map(|count| count.max(MIN_FUNCTION_DEFS))
+                        .unwrap_or_default(),
                     maxp.max_instruction_defs().unwrap_or_default(),
                     // Add 4 for phantom points
                     // See <https://gitlab.freedesktop.org/freetype/freetype/-/blob/57617782464411201ce7bbc93b086c1b4d7d84a5/src/truetype/ttobjs.c#L1188>
@@ -1409,6 +1420,36 @@ mod tests {
         },
         FontRead, FontRef, TableProvider,
     };
+
+    // FreeType raises maxp.maxFunctionDefs to at least 64 so that fonts
+    // whose font program defines more functions than announced still hint.
+    #[test]
+    fn function_defs_are_at_least_64() {
+        let data = font_test_data::TINOS_SUBSET;
+        let font = FontRef::new(data).unwrap();
+        let announced = font.maxp().unwrap().max_function_defs().unwrap();
+        assert!(announced > MIN_FUNCTION_DEFS);
+        // Larger values are kept as is
+        assert_eq!(Outlines::new(&font).unwrap().max_function_defs, announced);
+        // Patch the maxFunctionDefs field (byte offset 20 of the table)
+        let maxp_offset = font
+            .table_directory
+            .table_records()
+            .iter()
+            .find(|record| record.tag() == raw::types::Tag::new(b"maxp"))
+            .unwrap()
+            .offset() as usize;
+        for patched in [0u16, 10, 63, 64, 65] {
+            let mut data = data.to_vec();
+            data[maxp_offset + 20..maxp_offset + 22].copy_from_slice(&patched.to_be_bytes());
+            let font = FontRef::new(&data).unwrap();
+            assert_eq!(font.maxp().unwrap().max_function_defs(), Some(patched));
+            assert_eq!(
+                Outlines::new(&font).unwrap().max_function_defs,
+                patched.max(MIN_FUNCTION_DEFS)
+            );
+        }
+    }
 
     #[test]
     fn overlap_flags() {
